@@ -53,6 +53,9 @@ def run(prog, R, tier="quick", only_rule=None):
     from rules.props import c06
     c06.c06l(prog, R, rid="C07.i")
     c06.c06p(prog, R, rid="C07.l")
+    # "every file the version names exists": nothing is marked deleted before the version without it is published
+    from rules.props import c05
+    c05.c05c(prog, R, rid="C07.m")
     # "matches its manifest": a version is visible in memory only after its file and `current` were written
     from rules.props import c02
     c02.c02a(prog, R, rid="C07.j")
